@@ -1,6 +1,7 @@
 import UPVerif.Core.Sexp
 import UPVerif.Drv.C33
 import UPVerif.Drv.Den
+import UPVerif.Drv.C06
 import UPVerif.Drv.C09
 import UPVerif.Drv.C05
 import UPVerif.Drv.C04
@@ -79,6 +80,8 @@ def handlers : List (String × (Sexp → Sexp)) := [
   ("C04", Drv.C04.handle),
   ("C05", Drv.C05.handle),
   ("C09", Drv.C09.handle),
+  ("C06", Drv.C06.handle),
+  ("C07", Drv.C06.handle),
   ("ECHO", Drv.Den.handleEcho),
   ("DEN", Drv.Den.handleDen)
 ]
